@@ -123,7 +123,7 @@ def cases48(draw, tier):
 def cases128(draw, tier):
     clear = draw(st.sampled_from([24575, 29999, 32767, 23977]) | st.integers(23977, 40000))
     nb = draw(st.integers(0, 6))
-    banks = sorted(draw(st.permutations([0, 1, 3, 4, 6, 7]))[:nb])
+    banks = list(draw(st.permutations([0, 1, 3, 4, 6, 7]))[:nb])      # in the order drawn: the option does not ask for a sorted list
     loader = draw(st.sampled_from([None, None, 'custom']))
     begin = clear + 1 + draw(st.sampled_from([64, 64, 100, 1000]))
     end = draw(st.sampled_from([None, None, 49152, 40000 if begin < 39000 else None]))
